@@ -190,4 +190,50 @@ def run(F, rep, tier):
                       "Formatter::%s chooses what to emit (`%s`) by inspecting the rendered text of a child (`%s`): a terminator/separator that the grammar relies on is emitted for some children and dropped for others" % (
                           it["name"], lits[:3], render(cond)[:70]), "src/syntax/src/formatter.rs (expanded line %d)" % it["line"])
     rep.ok("C08-R5", "scanned")
+    # ---- R6: no emitter drops elements of a list it is given (text path)
+    rep.rule("C08-R6", "text-mode emitters emit every element of the lists they are given: no filter/skip/take/first/last/continue on the text path (a dropped element is a dropped piece of the program)")
+    DROPPERS = {"filter", "filter_map", "skip", "take", "step_by", "skip_while", "take_while", "dedup", "truncate", "retain", "pop", "remove", "split_first", "split_last", "first", "last", "nth", "find", "find_map", "position"}
+    # reviewed exceptions: (method, construct) -> reason
+    R6_OK = {("function_define", "first"): "match-arm function form: the grammar gives it exactly one output kind, `first()` reads that one"}
+
+    def text_path_nodes(n, out):
+        """pre-order walk that does not enter the html-only branch of `if self.html`"""
+        if not isinstance(n, list):
+            return
+        if is_node(n):
+            if n[0] == "if":
+                c = render(n[1]).replace(" ", "")
+                if c in ("self.html",):
+                    if n[3] is not None:
+                        text_path_nodes(n[3], out)
+                    return
+                if c in ("!self.html",):
+                    text_path_nodes(n[2], out)
+                    return
+            out.append(n)
+        for ch in n:
+            if isinstance(ch, list):
+                text_path_nodes(ch, out)
+    n6 = 0
+    for it in fm:
+        if it["name"] not in reach:
+            continue
+        nodes = []
+        text_path_nodes(it["body"], nodes)
+        n6 += 1
+        hits = []
+        for n in nodes:
+            if n[0] == "mcall" and n[2] in DROPPERS:
+                hits.append(n[2])
+            elif n[0] == "continue":
+                hits.append("continue")
+        if not hits:
+            rep.ok("C08-R6", "%s:emits-all" % it["name"])
+        for h in sorted(set(hits)):
+            if (it["name"], h) in R6_OK:
+                rep.ok("C08-R6", "%s:%s:reviewed" % (it["name"], h), sample={"method": it["name"], "construct": h, "reason": R6_OK[(it["name"], h)]})
+                continue
+            rep.bad("C08-R6", "%s:%s" % (it["name"], h), "Formatter::%s uses `%s` on its text path: elements of the node's lists can be left out of the formatted text, which then re-parses to a different tree" % (it["name"], h),
+                    "src/syntax/src/formatter.rs (expanded line %d)" % it["line"])
+    rep.floor("C08-R6", "emitters scanned for element dropping", n6, 100)
     rep.analysed = {"formatter_methods": len(fm), "enum_matches": n1, "struct_emitters": n2, "operator_literals": n3, "child_text_inspections": n5}
